@@ -212,7 +212,7 @@ impl DiscriminantType {
             _ => {
                 quote! {
                     unsafe {
-                        ::core::cmp::Ord::cmp(&*<*const _>::from(self).cast::<#self>(), &*<*const _>::from(other).cast::<#self>())
+                        ::core::cmp::Ord::cmp(&*(self as *const Self).cast::<#self>(), &*(other as *const Self).cast::<#self>())
                     }
                 }
             },
